@@ -135,7 +135,7 @@ impl ServerInfo {
 
         let mut features: HashSet<Extension> = HashSet::new();
 
-        for line in response.message() {
+        for line in response.message().skip(1) {
             if line.is_empty() {
                 continue;
             }
